@@ -56,6 +56,14 @@ NEEDS = {
     "C11-s13": ("C11", "the doc-store compressor thread keeps draining its channel after a failed write and only reports the LAST block's result", "a transient write fault on .store on the compressor thread that is not the last block written: commit returns Ok while later doc ids are shifted"),
     "C18-s13": ("C18", "MmapDirectory::acquire_lock builds the ReleaseLockFile guard (which now removes the file on drop) before try_lock_exclusive", "MmapDirectory and at least TWO creation attempts while one writer is alive: the first is refused and unlinks the lock file, the second succeeds"),
     "C13-s13": ("C13", "ExclusionSet::contains trusts docset.doc() whenever doc() >= target instead of calling seek_danger", "a MustNot clause with a real danger zone (nested conjunction or phrase): after a seek_danger miss the excluded scorer's doc() is not a match, so non-excluded documents are dropped depending on the probes made"),
+    "C03-s14": ("C03", "a Disjunction::seek override without the `current_doc >= target` guard: seek(doc()) jumps to the next match", "a boolean query with minimum_number_should_match >= 2 and more SHOULD clauses than that minimum, inside an intersection (a MUST clause at the same level, or nested as a MUST): `+m (a b c)~2` returns nothing"),
+    "C06-s14": ("C06", "RequiredOptionalScorer::seek_danger no longer resets score_cache (the same mutation as C12-s12, found again independently)", "scoring on, `+(+a b) +c` with the nested scorer not the lead of the intersection, two hits with different partial scores; visible only against independently computed keys (explain / per-term scores): C12's oracle, not C06's"),
+    "C17-s14": ("C17", "json_postings_writer: non-string JSON leaves are serialised with doc_id_map = None", "sort_by_field, an indexed JSON field with a numeric / bool / date leaf, a segment whose documents do not arrive in sort order, and a check of WHICH documents match a term query on that leaf"),
+    "C19-s14": ("C19", "RegexTokenizer::advance steps over an empty match by one BYTE", "a pattern that can match the empty string (\\w*, [a-z]*) and a multi-byte character the pattern cannot consume: advance() panics inside the character"),
+    "C09-s14": ("C09", "StoreWriter::store_bytes sends a document >= block size as its own block without flushing the smaller documents pending in the current block", "a document of at least the block size (16 KiB) with smaller documents pending before it, then a copy-path merge (deletes, < 6 blocks, other compressor) or a sorted-index rewrite: stored fields attached to the wrong document"),
+    "C14-s14": ("C14", "term_histogram.rs maybe_build_collector drops the requirement that the histogram column be full", "top-level low-cardinality terms on a full column with exactly one histogram leaf whose field is missing in some documents of the segment: doc ids used as row ids"),
+    "C07-s14": ("C07", "SegmentWriter::index_document (JSON branch): json_positions_per_path is cleared per VALUE instead of per document", "a JSON field indexed with positions and a document holding at least two values for that JSON field with text under the same path: positions of the later values restart at 0"),
+    "C08-s14": ("C08", "optional index iter_non_null_docs rewritten block-wise with the per-block count cast to u16: a completely filled 65,536-row block counts 0 and is skipped", "a segment with more than 65,536 rows, an Optional / Multivalued column, an aligned block in which every row has a value, and a stacked merge (or the exists query)"),
     "C08-s7": ("C08", "BitUnpacker::get_ids_for_value_range truncates the upper bound to 32 bits instead of clamping it", "a bit-packed column of width <= 32 and a range whose upper bound (after min/gcd normalisation) is >= 2^32 with low 32 bits below the matching values"),
 }
 
